@@ -5,6 +5,7 @@ Cases:
   {"kind": "frame", "p": [[3],[3],[3]], "cls": "..."}
 """
 import math
+import warnings
 
 import numpy as np
 
@@ -45,8 +46,29 @@ def generate(ctx):
             s = 10 ** rng.uniform(-6, 6) / math.sqrt(sum(c * c for c in d))
             axis = [c * s for c in d]
         theta = rng.choice([rng.uniform(-20, 20), rng.uniform(-20, 20), math.pi / 2 * rng.randint(-8, 8), 0.0])
-        yield {"kind": "rot", "axis": axis, "theta": theta, "theta2": rng.uniform(-20, 20),
-               "lam": 10 ** rng.uniform(-3, 3)}
+        c = {"kind": "rot", "axis": axis, "theta": theta, "theta2": rng.uniform(-20, 20),
+             "lam": 10 ** rng.uniform(-3, 3)}
+        j = rng.random()
+        if j < 0.04:
+            # one component so small that its SQUARE underflows (|c| / |axis| < 1e-154): still a non-zero axis; numpy flushes
+            # the underflow to zero silently unless someone has asked it to raise (seed C17-11: np.seterr(all='raise')
+            # at import of another module of the package)
+            c["axis"] = list(axis)
+            c["axis"][rng.randrange(3)] = rng.choice([-1, 1]) * 10.0 ** -rng.randint(160, 300)
+            if not any(abs(v) > 1e-6 for v in c["axis"]):
+                c["axis"][rng.randrange(3)] = 1.0
+        elif j < 0.10:
+            # the axis as an array of a fixed-width INTEGER dtype, with components whose squares do not fit that width
+            # (seed C17-12: `axis.dot(axis)` wraps where `np.linalg.norm` converts to float first)
+            dt, hi = rng.choice([("int8", 12), ("uint8", 15), ("int16", 200), ("int32", 60000), ("int64", 10 ** 6)])
+            lo = 0 if dt == "uint8" else -hi
+            ax = [rng.randint(lo, hi) for _ in range(3)]
+            if not any(ax):
+                ax[rng.randrange(3)] = hi
+            c["axis"] = [float(v) for v in ax]
+            c["adtype"] = dt
+            c["lam"] = float(rng.choice([1, 2, 3]))
+        yield c
     n_fr = ctx.n(7000, 30000)
     dirs = [(1, 0, 0), (0, 1, 0), (0, 0, 1), (1, 1, 0), (1, 0, 1), (0, 1, 1), (1, 1, 1), (1, -1, 0), (-1, 1, 1)]
     for i in range(n_fr):
@@ -118,9 +140,12 @@ def evaluate(ctx, case):
         th, th2, lam = float(case["theta"]), float(case["theta2"]), float(case["lam"])
         ctx.case(case, nontrivial=th != 0.0)
         ctx.count("rot")
-        ax_ro = axis.copy()
+        adtype = case.get("adtype")
+        ax_ro = axis.copy() if adtype is None else axis.astype(adtype)
         ax_ro.flags.writeable = False
-        buffered = int(abs(th) * 1e6) % 2 == 0
+        buffered = int(abs(th) * 1e6) % 2 == 0 and adtype is None
+        if adtype:
+            ctx.count("rot:axis-dtype-" + adtype)
         if buffered:
             # the caller keeps ONE axis array and refills it in place between calls (what a loop that draws
             # a new axis into a preallocated buffer does).  A decoy direction goes through the function first;
@@ -128,16 +153,27 @@ def evaluate(ctx, case):
             # "same axis as last time" cache that compares the array with a stored reference to itself).
             ctx.count("rot:axis-buffer-refilled-in-place")
             _AXBUF[:] = np.array([axis[1] + 1.0, -axis[2] - 0.5, axis[0] + 2.0])
-            with np.errstate(all="ignore"):
-                rotation_matrix(_AXBUF, 0.3)
+            with warnings.catch_warnings():
+                warnings.simplefilter("ignore")
+                try:
+                    rotation_matrix(_AXBUF, 0.3)
+                except Exception:   # noqa: BLE001  (the decoy is not the case under test)
+                    pass
             _AXBUF[:] = axis
             ax_ro = _AXBUF
-        with np.errstate(all="ignore"):
-            R = rotation_matrix(ax_ro, th)
-            Rn = rotation_matrix(ax_ro, -th)
-            R2 = rotation_matrix(ax_ro, th2)
-            R12 = rotation_matrix(ax_ro, th + th2)
-            Rl = rotation_matrix(ax_ro * lam, th)
+        # (numpy's floating-point error state is left as the package's import left it: warnings silenced, nothing else)
+        try:
+            with warnings.catch_warnings():
+                warnings.simplefilter("ignore")
+                R = rotation_matrix(ax_ro, th)
+                Rn = rotation_matrix(ax_ro, -th)
+                R2 = rotation_matrix(ax_ro, th2)
+                R12 = rotation_matrix(ax_ro, th + th2)
+                Rl = rotation_matrix(ax_ro * (lam if adtype is None else int(lam)), th)
+        except Exception as e:   # noqa: BLE001
+            ctx.oracle_ok(7)
+            ctx.oracle_fail("rotation_matrix:raises-" + type(e).__name__, case, {"error": repr(e)[:200]})
+            return
         n = axis / np.linalg.norm(axis)
         fails = []
         if buffered and not np.array_equal(_AXBUF, axis):
@@ -190,7 +226,8 @@ def evaluate(ctx, case):
             ctx.count("frame-input:list-of-arrays")
         err = None
         try:
-            with np.errstate(all="ignore"):
+            with warnings.catch_warnings():     # (warnings silenced; numpy's error state left as the package left it)
+                warnings.simplefilter("ignore")
                 (e1, e2, e3), o = calcule_base(Pin)
         except Exception as e:  # a read-only input being written raises ValueError
             err = e
